@@ -228,6 +228,13 @@ func merge[EntityT entity.Interface](def Definition, wrapper func(e *Entity) Ent
 	// Note: we don't need to update localEntity state (lastCommit, operations...) as we
 	// discard it entirely anyway.
 
+	// The entity handed back with the merge result is kept by the caller (the cache stores it and
+	// later commits through it), so it has to be the merged state, not the local state from before.
+	localEntity, err = read[EntityT](def, wrapper, repo, resolvers, localRef)
+	if err != nil {
+		return entity.NewMergeError(err, id)
+	}
+
 	return entity.NewMergeUpdatedStatus(id, localEntity)
 }
 
